@@ -7,9 +7,9 @@ OL = None
 FROLES = ['none', 'read', 'assign', 'param', 'gassign', 'gread', 'nlassign', 'nlread', 'nlaug', 'gaug', 'fortarget', 'walrus', 'lamparam', 'comptarget',
           'lamread', 'compread', 'assign_late', 'import', 'defname', 'augassign', 'classname', 'subscript_index', 'lamdefault', 'genread',
           'nested_comp', 'lam_in_comp', 'comp_in_lam', 'kwdefault', 'posdefault', 'lamdefault_same', 'swap', 'lamkwparam', 'lamstarparam', 'defkwparam',
-          'decoclassname', 'lamstarkwparam', 'lam_in_lam', 'compiter_same', 'assign_compiter']
+          'decoclassname', 'lamstarkwparam', 'lam_in_lam', 'compiter_same', 'assign_compiter', 'lamwalrus']
 CROLES = ['none', 'read', 'assign', 'gassign', 'nlassign', 'read_then_assign', 'compread', 'lamread', 'fortarget', 'walrus', 'genread',
-          'decoclass', 'lamlamread', 'lamcompread', 'complamread', 'lamstarkw', 'compiter_same', 'assign_lam_read', 'assign_lam_compiter', 'assign_compread']
+          'decoclass', 'lamlamread', 'lamcompread', 'complamread', 'lamstarkw', 'compiter_same', 'assign_lam_read', 'assign_lam_compiter', 'assign_compread', 'lamwalrus']
 
 
 def body(kind, role, tag, ind):
@@ -43,6 +43,7 @@ def body(kind, role, tag, ind):
         elif role == 'lamstarkwparam': L += [f"{p}log('{tag}l', (lambda *a, **x: sorted(x.items()))(1, k='{tag}'), (lambda *x, **k: (x, sorted(k)))('{tag}s', x=1))"]
         elif role == 'lam_in_lam': L += [f"{p}log('{tag}n', (lambda: (lambda: x)())(), (lambda: [(lambda: x)() for _ in [0]])())"]
         elif role == 'compiter_same': L += [f"{p}log('{tag}c', [x for x in x], [y for y in x])"]
+        elif role == 'lamwalrus': L += [f"{p}log('{tag}w', (lambda: (x := '{tag}') + x)(), x)"]
         elif role == 'assign_compiter': L += [f"{p}x = '{tag}'", f"{p}log('{tag}c', [x for x in x], [[x for x in x] for x in [x]], [x for x in [x] for x in x])"]
         elif role == 'subscript_index': L += [f"{p}d_{tag} = {{}}", f"{p}d_{tag}[x] = '{tag}'", f"{p}d_{tag}[x] += '+'"]; log(f"sorted(d_{tag}.items())")
         elif role == 'lamkwparam': L += [f"{p}log('{tag}l', (lambda *, x: x)(x='{tag}k'), (lambda a, *, x='{tag}d': (a, x))(1))"]
@@ -72,6 +73,7 @@ def body(kind, role, tag, ind):
         elif role == 'compiter_same': L += [f"{p}a_{tag} = ([x for x in x], [y for y in x], list(x for x in x))"]
         elif role == 'assign_lam_read': L += [f"{p}x = '{tag}'", f"{p}a_{tag} = (lambda: x)()", f"{p}def m_{tag}(k=x, *, j=x): return (k, j)", f"{p}b_{tag} = (x, m_{tag}(), x + '+')"]
         elif role == 'assign_lam_compiter': L += [f"{p}x = '{tag}'", f"{p}a_{tag} = list(x for _ in [0])", f"{p}b_{tag} = ([y for y in x], [x for x in x])"]
+        elif role == 'lamwalrus': L += [f"{p}a_{tag} = ((lambda: (x := '{tag}') + x)(), x)"]
         elif role == 'assign_compread': L += [f"{p}x = '{tag}'", f"{p}a_{tag} = [x for _ in [0]]"]
         elif role == 'lamstarkw': L += [f"{p}a_{tag} = (lambda *a, **x: sorted(x.items()))(1, k='{tag}')", f"{p}b_{tag} = (lambda *x, **k: (x, sorted(k)))('{tag}s', x=1)"]
         elif role == 'decoclass': L += [f"{p}@(lambda c: type(c.__name__, (c,), {{'d': '{tag}d'}}))", f"{p}class x: v = '{tag}'", f"{p}a_{tag} = (x.v, getattr(x, 'd', None))"]
@@ -83,7 +85,7 @@ def body(kind, role, tag, ind):
 def post(kind, role, tag, ind):
     p = '    ' * ind
     if kind == 'f':
-        if role in ('none', 'lamparam', 'comptarget', 'lamread', 'compread', 'genread', 'lamdefault', 'nested_comp', 'lam_in_comp', 'comp_in_lam', 'lamdefault_same', 'lamkwparam', 'lamstarparam', 'defkwparam', 'lamstarkwparam', 'lam_in_lam', 'compiter_same'): return []
+        if role in ('none', 'lamparam', 'comptarget', 'lamread', 'compread', 'genread', 'lamdefault', 'nested_comp', 'lam_in_comp', 'comp_in_lam', 'lamdefault_same', 'lamkwparam', 'lamstarparam', 'defkwparam', 'lamstarkwparam', 'lam_in_lam', 'compiter_same', 'lamwalrus'): return []
         if role == 'assign_late': return [f"{p}x = '{tag}'", f"{p}log('{tag}post', x)"]
         if role == 'import': return [f"{p}log('{tag}post', x.__name__)"]
         if role == 'defname': return [f"{p}log('{tag}post', x())"]
@@ -143,9 +145,9 @@ def run(code, mode):
     return out, None
 
 
-READS = {'read', 'nlread', 'lamread', 'compread', 'genread', 'nlassign', 'nlaug', 'subscript_index', 'lamdefault', 'kwdefault', 'posdefault', 'lamdefault_same', 'lam_in_lam', 'compiter_same'}
+READS = {'read', 'nlread', 'lamread', 'compread', 'genread', 'nlassign', 'nlaug', 'subscript_index', 'lamdefault', 'kwdefault', 'posdefault', 'lamdefault_same', 'lam_in_lam', 'compiter_same', 'lamwalrus'}
 LOCALBIND = {'assign', 'param', 'walrus', 'import', 'defname', 'assign_late', 'fortarget', 'augassign', 'classname', 'decoclassname', 'assign_compiter'}
-CREADS = ('read', 'nlassign', 'compread', 'genread', 'lamread', 'read_then_assign', 'lamlamread', 'lamcompread', 'complamread', 'compiter_same', 'assign_lam_read', 'assign_lam_compiter', 'assign_compread')
+CREADS = ('read', 'nlassign', 'compread', 'genread', 'lamread', 'read_then_assign', 'lamlamread', 'lamcompread', 'complamread', 'compiter_same', 'assign_lam_read', 'assign_lam_compiter', 'assign_compread', 'lamwalrus')
 
 
 def binder_idx(chain, i):
@@ -169,6 +171,8 @@ def classes(ma, chain):
         b = binder_idx(chain, i) if free_here else None
         if k == 'c' and r == 'read_then_assign':
             cs.add('KF-D27')
+        if r == 'lamwalrus':
+            cs.add('KF-D74')
         if k == 'c' and r == 'assign_compread' and sys.version_info >= (3, 12):
             cs.add('KF-D72')
         if k == 'c' and r in ('assign_lam_read', 'assign_lam_compiter', 'assign_compread') and binder_idx(chain, i) is not None:
